@@ -573,7 +573,7 @@ def check_methods(spec, ctx):
     if spec["parent"] == "chrom":
         parent = chrom_parent(g)
     elif spec["parent"] == "chunk":
-        parent = chunk_parent(g, chunk[0], chunk[1])
+        parent = chunk_parent(g, chunk[0], chunk[1], strand=spec.get("chunk_strand", "+"), idiom=spec.get("chunk_idiom", "api"))
     ctx.label("parent:" + spec["parent"], "kind:" + kind)
     o = spec["obj"]
     if kind == "loc":
@@ -701,6 +701,8 @@ def strat_methods(draw, tier="quick"):
     if sp["parent"] == "chunk":
         cs = draw(st.integers(0, n - 1))
         sp["chunk"] = [cs, draw(st.integers(cs + 1, n))]
+        if kind not in ("collection", "vc"):
+            sp.update(draw(S.chunk_flavour()))
         if kind in ("collection", "vc"):
             sp["chunk"] = [0, n] if draw(st.booleans()) else [draw(st.integers(0, 2)), n]
             if kind == "vc":
